@@ -76,16 +76,34 @@ def run(ctx):
                     ctx.violation("sensortran:st-misplaced", "Stokes / anti-Stokes cells are not where they were recorded", rec)
                 if not np.array_equal(np.array(o["tmp"]), want + 4):
                     ctx.violation("sensortran:tmp-misplaced", "device temperature cells are not where they were recorded", rec)
+            # ---- Sensortran faults: a missing companion file, with and without a stray companion of a measurement that is not there
+            if n >= 2:
+                for fault in ("missing-companion", "missing-companion+stray-companion"):
+                    d = os.path.join(tmp, f"sensortran_{fault}{c}")
+                    gen_files.sensortran_files(d, n, nx)
+                    gone = int(rng.integers(0, n))
+                    os.remove(os.path.join(d, f"{10 + gone:02d}_00_00_BinaryTemp.dat"))
+                    if "stray" in fault:
+                        other = (gone + 1) % n
+                        shutil.copy(os.path.join(d, f"{10 + other:02d}_00_00_BinaryTemp.dat"), os.path.join(d, f"{10 + n + 3:02d}_00_00_BinaryTemp.dat"))
+                    rec = {"reader": "sensortran", "fault": fault, "n": n, "nx": nx, "missing": gone}
+                    ctx.case(("sensortran-fault", c, fault), sample=rec)
+                    o = worker("sensortran", d)
+                    if "error" not in o:
+                        ctx.violation(f"sensortran:{fault}-loaded", "a file set in which a measurement has no companion temperature file was loaded", rec)
             # ---- Sensornet
             for naming in ("oryx", "halo"):
                 d = os.path.join(tmp, f"sensornet_{naming}{c}")
                 n2 = min(n, 6)
-                gen_files.sensornet_files(d, n2, naming)
+                info = {}
+                drop = int(rng.choice([0, 0, 30, 120]))
+                gen_files.sensornet_files(d, n2, naming, drop_tail=drop, info=info)
                 flip = naming == "halo"  # the reader flips the backward channel for Halo / Sentinel files
-                for listing in ("sorted", "reversed"):
-                    rec = {"reader": "sensornet", "naming": naming, "n": n2, "listing": listing, "flip_reverse_measurements": flip}
-                    ctx.case(("sensornet", c, naming, listing), sample=rec)
-                    o = worker("sensornet", d, {"listing": listing})
+                xr_ = np.array(info["x"])
+                for listing, flen in (("sorted", None), ("reversed", None), ("sorted", float(np.round(xr_[-1] - rng.choice([10.0, 30.0, 49.0, 80.0]), 1)))):
+                    rec = {"reader": "sensornet", "naming": naming, "n": n2, "listing": listing, "flip_reverse_measurements": flip, "drop_tail": drop, "fiber_length": flen}
+                    ctx.case(("sensornet", c, naming, listing, flen), sample=rec)
+                    o = worker("sensornet", d, {"listing": listing, "fiber_length": flen})
                     if "error" in o:
                         ctx.violation(f"sensornet:raised:{naming}", o["error"], rec)
                         continue
@@ -103,10 +121,18 @@ def run(ctx):
                     rb = [row_of(v) for v in rst[:, 0]]
                     if any(b - a != 1 for a, b in zip(rf, rf[1:])):
                         ctx.violation(f"sensornet:forward-rows-not-contiguous:{naming}", f"forward rows {rf[:5]}..", rec)
-                    # flipped: the backward sample paired with forward raw row r is raw row (const - r); stored aligned: (r + const)
+                    if not np.allclose(np.array(o["x"]), xr_[rf], atol=1e-9):
+                        ctx.violation(f"sensornet:x-not-of-the-forward-rows:{naming}", "x does not hold the distances of the forward rows", rec)
+                    # the file format fixes WHICH raw row of the reverse channel belongs to a forward row: with L = fiber_length (default: 50 m before the
+                    # end of the recording), i0 = row of x=0, i1 = row of x=L: flipped files pair row r with row i0+i1-r (the sample recorded at L-x);
+                    # aligned files pair row r with row r + (row of the header's 'fibre end' - i1)
+                    L = flen if flen is not None else max(0.0, xr_[-1] - 50.0)
+                    i0, i1 = int(np.abs(xr_).argmin()), int(np.abs(xr_ - L).argmin())
+                    want = (i0 + i1) if flip else (int(np.abs(xr_ - info["fibre_end"]).argmin()) - i1)
                     comb = set((a + b) if flip else (b - a) for a, b in zip(rf, rb))
-                    if len(comb) != 1:
-                        ctx.violation(f"sensornet:backward-not-{'mirrored' if flip else 'aligned'}:{naming}", f"forward and backward raw row indices are not in a fixed {'mirror' if flip else 'offset'} relation: {sorted(comb)[:4]}", rec)
+                    if comb != {want}:
+                        ctx.violation(f"sensornet:backward-not-{'mirrored' if flip else 'aligned'}:{naming}:explicit-length={int(flen is not None)}",
+                                      f"forward row r is paired with reverse row {'c - r' if flip else 'r + c'} for c in {sorted(comb)[:4]}; the file format gives c = {want}", rec)
             # ---- a file with a different number of points
             d = os.path.join(tmp, f"silixa_bad{c}")
             nb = max(n, 2)
